@@ -46,4 +46,44 @@ theorem rldecodeAux_cons_lit (fuel : Nat) (l : UInt8) (rest : Bytes) :
       | nil => rfl
       | cons b r => simp only []; cases rldecodeAux fuel r <;> rfl
 
+/-! ### LZW: the model with the constants of lzw.py written out -/
+
+theorem lzwInit_lit : lzwInit = { nbits := 9, init := false, ext := [], prev := none } := rfl
+
+theorem tableLen_lit (st : LzwSt) : tableLen st = if st.init then 258 + st.ext.length else 0 := rfl
+
+theorem tableGet_lit (st : LzwSt) (code : Nat) :
+    tableGet st code =
+      (if !st.init then none
+       else if code < 256 then some [UInt8.ofNat code]
+       else if code < 258 then none
+       else st.ext[code - 258]?) := rfl
+
+theorem feedGrow_lit (st : LzwSt) (entry x : Bytes) :
+    feedGrow st entry x =
+      .ok { st with ext := st.ext ++ [entry], nbits := nbitsAfter st.nbits (258 + (st.ext ++ [entry]).length),
+                    prev := some x } x := rfl
+
+theorem feed_lit (st : LzwSt) (code : Nat) :
+    feed st code =
+      (if code == 256 then .ok { nbits := 9, init := true, ext := [], prev := some [] } []
+       else if code == 257 then .ok st []
+       else
+         match st.prev with
+         | none | some [] =>
+           match tableGet st code with
+           | some x => .ok { st with prev := some x } x
+           | none => .indexError
+         | some p =>
+           if code < tableLen st then
+             match tableGet st code with
+             | some x => feedGrow st (p ++ x.take 1) x
+             | none => .indexError
+           else if code == tableLen st then feedGrow st (p ++ p.take 1) (p ++ p.take 1)
+           else .corrupt) := by
+  unfold feed
+  rfl
+
+theorem lzwdecode_lit (data : Bytes) : lzwdecode data = lzwRunB (8 * data.length + 1) lzwInit data 0 8 := rfl
+
 end PdfVerif.Filters
